@@ -21,8 +21,26 @@ RULE = ("(a) unit correspondence: for generated configurations (base claims, alw
         "already down-scoped token) are PRESENTED to userinfo and introspection, their JWT claims and the ID Tokens minted with them "
         "are decoded: the attributes must lie within the bound recomputed from configuration + the scope of the presented token + "
         "claims request, and equal (as a set) what the model's release_tok computes for that token scope. "
+        "(d) tokens minted by the AUTHORIZATION endpoint: every response type (code, id_token, code id_token, id_token token, "
+        "code id_token token, token, code token; every word order) on providers with generated release configurations in which the "
+        "client's userinfo and id_token entries differ (userinfo only, id_token only, different claims and opposite scope switches, "
+        "partial by_scope dictionaries; a fixed matrix of such clients plus random ones), with claims requests for id_token and / or "
+        "userinfo and client scope maps, as sequences of flows on one provider. The ID Token of the authorization response is decoded: "
+        "its user attributes must lie within the bound of ITS release point - the id_token rules for every response type, plus the "
+        "userinfo rules exactly when the response type is `id_token` alone - and equal (as a set) the model's release_authz_idt, whose "
+        "release point is idt_release_point(response type); access tokens of the authorization response are presented to userinfo and "
+        "introspection and decoded when JWTs; the code is redeemed and the token endpoint's ID Token / access token judged by the "
+        "id_token / userinfo / introspection / access_token rules. "
         "A case is non-trivial when at least one user attribute is released.")
-ASSUMPTIONS = ["the user database (users.json) is an arbitrary function user -> attributes", "JSON floats do not occur in the fixture data"]
+ASSUMPTIONS = ["the user database (users.json) is an arbitrary function user -> attributes", "JSON floats do not occur in the fixture data",
+               "release point of an ID Token minted by the authorization endpoint (OIDC Core 5.4: the claims requested by scope values are "
+               "returned from the UserInfo endpoint when the response type results in an access token being issued, and in the ID Token when "
+               "no access token is issued, 'which is the case for the response_type value id_token'; library: Grant.payload_arguments "
+               "secondary_identifier = 'claims returned are also based on rules for another release_point', handed in as as_if='userinfo' for "
+               "rtype == {'id_token'} only): response type `id_token` alone -> id_token rules plus userinfo rules (what the userinfo endpoint "
+               "may release for that scope, and the client's add_claims.always.userinfo / by_scope.userinfo entries when per-client claims "
+               "are enabled for the ID Token handler); every other response type and every ID Token of the token endpoint -> id_token rules only",
+               "a response type is the SET of its words (order and repetition do not matter)"]
 
 POINTS = ["userinfo", "id_token", "introspection", "access_token"]
 CLAIMS = ["name", "given_name", "family_name", "nickname", "email", "email_verified", "phone_number", "address", "birthdate", "sub", "nonexistent"]
@@ -605,6 +623,289 @@ def downscoped_tokens(ctx, rng, n):
                         diag="diag_release_tok")
 
 
+# Response types at the authorization endpoint.  The five that carry `openid` semantics of their own (OIDC Core 3) and the
+# two OAuth2 ones that make the authorization endpoint mint an access token without an ID Token.
+RESPONSE_TYPES = ["code", "id_token", "code id_token", "id_token token", "code id_token token", "token", "code token"]
+
+
+def authz_idt_bound(server, rt_words, client, token_scope, claims_param):
+    """The property's bound for the ID Token found in an AUTHORIZATION response, as a function of the response type.
+    Every response type: the id_token rules (release_bound for the point id_token).  Response type `id_token` alone
+    (no access token will ever exist for the flow, so the userinfo endpoint can never be asked - OIDC Core 5.4): plus
+    the userinfo rules - what the userinfo endpoint would be permitted to release for a token with that scope, and the
+    client's own userinfo entries (add_claims.always.userinfo / by_scope.userinfo) when per-client claims are enabled
+    for the ID Token handler (the library's documented `secondary_identifier`: "claims returned are also based on rules
+    for another release_point").  For every other response type nothing configured or requested for userinfo counts."""
+    b = release_bound(server, "id_token", client, token_scope, claims_param)
+    if set(rt_words) == {"id_token"}:
+        b |= release_bound(server, "userinfo", client, token_scope, claims_param)
+        b |= client_userinfo_entries(server, client, token_scope)
+    return b
+
+
+def client_userinfo_entries(server, client, token_scope):
+    """what the client's own userinfo entries (add_claims.always.userinfo, add_claims.by_scope.userinfo) stand for when
+    per-client claims are enabled for the ID Token handler"""
+    b = set()
+    cctx = server.context
+    crec = cctx.cdb[client]
+    if module_of(server, "id_token").kwargs.get("enable_claims_per_client"):
+        add = crec.get("add_claims") or {}
+        b |= set((add.get("always") or {}).get("userinfo") or [])
+        if (add.get("by_scope") or {}).get("userinfo"):
+            the_map = crec.get("scopes_to_claims") or cctx.scopes_handler._scopes_to_claims
+            allowed = crec.get("allowed_scopes")
+            if allowed is None:
+                allowed = list(cctx.scopes_handler._scopes_to_claims.keys())
+            for sc in token_scope:
+                if sc in allowed:
+                    b |= set(the_map.get(sc, []))
+    return b
+
+
+def draw_client_release(rng):
+    """A client's release configuration.  `as-downscoped` is what downscoped_tokens draws; the other shapes make the
+    entries of userinfo and id_token DIFFER: a client that configures only userinfo, only id_token, both with different
+    claims and opposite scope switches, a by_scope dictionary that names some points only."""
+    shape = rng.choice(["none", "as-downscoped", "as-downscoped", "userinfo-only", "userinfo-only", "userinfo-only", "id_token-only", "differ", "differ",
+                        "partial", "partial", "others-only"])
+    o = {}
+    pick = lambda lo, hi: rng.sample(CLAIMS[:8], rng.randint(lo, hi))
+    if shape == "as-downscoped":
+        o["add_claims"] = {"always": {p: pick(0, 2) for p in rng.sample(POINTS, rng.randint(0, 4))},
+                           "by_scope": ({p: rng.random() < 0.7 for p in POINTS} if rng.random() < 0.7 else {})}
+    elif shape == "userinfo-only":
+        o["add_claims"] = {"always": ({"userinfo": pick(1, 2)} if rng.random() < 0.8 else {}),
+                           "by_scope": ({"userinfo": rng.random() < 0.8} if rng.random() < 0.8 else {})}
+    elif shape == "id_token-only":
+        o["add_claims"] = {"always": ({"id_token": pick(1, 2)} if rng.random() < 0.8 else {}),
+                           "by_scope": ({"id_token": rng.random() < 0.6} if rng.random() < 0.8 else {})}
+    elif shape == "differ":
+        flag = rng.random() < 0.5
+        o["add_claims"] = {"always": {"userinfo": pick(1, 2), "id_token": pick(0, 2)}, "by_scope": {"userinfo": flag, "id_token": not flag}}
+    elif shape == "partial":
+        o["add_claims"] = {"always": {p: pick(0, 2) for p in rng.sample(POINTS, rng.randint(1, 3))},
+                           "by_scope": {p: rng.random() < 0.6 for p in rng.sample(POINTS, rng.randint(1, 3))}}
+    elif shape == "others-only":
+        o["add_claims"] = {"always": {"introspection": pick(1, 2), "access_token": pick(1, 2)},
+                           "by_scope": {"introspection": True, "access_token": rng.random() < 0.5}}
+    if rng.random() < 0.2:
+        o["scopes_to_claims"] = {"openid": ["sub"], "email": ["email"], "profile": ["nickname", "name"], "phone": ["phone_number", "address"],
+                                 "address": ["address"], "offline_access": []}
+    return shape, o
+
+
+def authz_endpoint_id_tokens(ctx, rng, n):
+    """ID Tokens (and access tokens) minted by the AUTHORIZATION endpoint itself, for every response type, on providers with
+    generated release configurations (module settings of the four points as downscoped_tokens draws them, per-client
+    add_claims whose userinfo and id_token entries differ, claims requests for id_token and / or userinfo, client scope
+    maps).  Per provider a sequence of flows of different response types, clients and users (so every flow but the first
+    has a history).  Per flow: the ID Token of the authorization response is decoded -> oracle authz_idt_bound (id_token
+    rules; plus userinfo rules exactly for response type `id_token` alone) and correspondence with the model's
+    release_authz_idt (idt_release_point rt); an access token of the authorization response is presented to userinfo and
+    introspection and decoded when a JWT; a code is redeemed and the token endpoint's ID Token / access token are judged by
+    the id_token / userinfo / introspection / access_token rules as everywhere else."""
+    import itertools
+    users = json.load(open(srv.USERS))
+    idt_cases, tok_cases = [], []
+    # the fixed part: per-client claims on for the ID Token handler; client_1 configures ONLY always-add for userinfo,
+    # client_2 ONLY the scope switch of userinfo, client_12 both points with different claims and opposite switches;
+    # every ID-Token-bearing response type in every word order (a response type is a set), code flow as the control
+    MATRIX = [
+        {"jwt": False, "id_token": (False, [], True), "userinfo": (False, [], True), "claims": {},
+         "over": {"client_1": {"add_claims": {"always": {"userinfo": ["email", "nickname"]}, "by_scope": {}}},
+                  "client_2": {"add_claims": {"always": {}, "by_scope": {"userinfo": True}}},
+                  "client_12": {"add_claims": {"always": {"userinfo": ["phone_number", "name"], "id_token": ["given_name"]},
+                                               "by_scope": {"userinfo": True, "id_token": False}}}}},
+        {"jwt": True, "id_token": (True, ["family_name"], True), "userinfo": (True, ["address"], False), "claims": {"userinfo": {"nickname": None, "birthdate": None}},
+         "over": {"client_1": {"add_claims": {"always": {"userinfo": ["email"], "introspection": ["name"]}, "by_scope": {"userinfo": True, "id_token": False}}},
+                  "client_2": {"add_claims": {"always": {"userinfo": ["phone_number"]}, "by_scope": {"userinfo": True, "introspection": False}}},
+                  "client_12": {"add_claims": {"always": {"id_token": ["email"], "userinfo": ["address", "email_verified"]},
+                                               "by_scope": {"id_token": False, "access_token": True}}}}},
+    ]
+    for i in range(len(MATRIX) + n):
+        fixed = MATRIX[i] if i < len(MATRIX) else None
+        if fixed:
+            jwt = fixed["jwt"]
+            over = copy.deepcopy(fixed["over"])
+            shapes = {c: "matrix" for c in sess.CLIENTS}
+        else:
+            jwt = i % 2 == 0
+            over, shapes = {}, {}
+            for c in sess.CLIENTS:
+                shapes[c], over[c] = draw_client_release(rng)
+        rs = sess.RealSession(oidc=True, jwt_access=jwt, client_over=copy.deepcopy(over))
+        try:
+            cfg = {}
+            for point in POINTS:
+                mod = module_of(rs.server, point)
+                if fixed:
+                    bs, al, pc = fixed.get(point, (True, [], False))
+                    mod.kwargs["add_claims_by_scope"], mod.kwargs["always_add_claims"], mod.kwargs["enable_claims_per_client"] = bs, list(al), pc
+                else:
+                    mod.kwargs["add_claims_by_scope"] = rng.random() < (0.5 if point == "id_token" else 0.8)
+                    mod.kwargs["always_add_claims"] = rng.sample(CLAIMS[:8], rng.randint(0, 1))
+                    mod.kwargs["enable_claims_per_client"] = rng.random() < (0.7 if point == "id_token" else 0.4)
+                    if rng.random() < 0.3:
+                        bc = rng.choice(CLAIMS[:8])
+                        mod.kwargs["base_claims"] = {bc: gen_spec(rng, users["diana"], bc)}
+                cfg[point] = {k: mod.kwargs.get(k) for k in ("add_claims_by_scope", "always_add_claims", "enable_claims_per_client", "base_claims")}
+            ui_ep, ie = rs.ep["userinfo"], rs.ep["introspection"]
+            plan = []       # (response type, its words in the order sent, client or None, claims request or None)
+            if fixed:
+                for rt in RESPONSE_TYPES[:5]:
+                    for words in itertools.permutations(rt.split()):
+                        for c in sess.CLIENTS:
+                            plan.append((rt, list(words), c, fixed["claims"]))
+                rng.shuffle(plan)
+            else:
+                rts = list(RESPONSE_TYPES) + [rng.choice(RESPONSE_TYPES[1:5]) for _ in range(5)]
+                rng.shuffle(rts)
+                for rt in rts:
+                    words = rt.split()
+                    rng.shuffle(words)
+                    plan.append((rt, words, None, None))
+            hist = []
+            for rt, words, c, req_claims in plan:
+                if c is None:
+                    # clients whose userinfo and id_token entries differ are drawn more often
+                    c = rng.choice([x for x in sess.CLIENTS for _ in range(3 if shapes[x] in ("userinfo-only", "differ", "partial", "as-downscoped") else 1)])
+                u = rng.choice(["diana", "babs", "dian"])
+                crec = rs.ctx.cdb[c]
+                pool = [x for x in crec.get("allowed_scopes", sess.SCOPES_KNOWN) if x not in ("openid", "offline_access")]
+                gscope = ["openid"] + rng.sample(pool, min(len(pool), rng.randint(2 if fixed else 1, 4)))
+                if rng.random() < 0.2:
+                    gscope.append("unknown")
+                rng.shuffle(gscope)
+                if req_claims is None:
+                    req_claims = {}
+                    if rng.random() < 0.5:
+                        for p in rng.sample(["userinfo", "id_token"], rng.randint(1, 2)):
+                            req_claims[p] = {x: gen_spec(rng, users[u], x) for x in rng.sample(CLAIMS[:8], rng.randint(1, 2))}
+                o = rs.run(("authz", u, c, gscope, " ".join(words), {"claims": req_claims} if req_claims else {}))
+                if o[0] != "ok" or not o[1]:
+                    ctx.count("authz-rt:%s:refused" % rt)
+                    ctx.notes.append("authz_endpoint_id_tokens: authorization refused %r (%s)" % (o, rt))
+                    continue
+                slots = {}
+                for t in o[1]:
+                    slots[rs.tokobj[t].token_class] = t
+                uvals = {k: v for k, v in users[u].items() if k not in PROTOCOL}
+                base_rec = {"authz_endpoint": True, "response_type": " ".join(words), "user": u, "client": c, "scope_asked_for": gscope,
+                            "claims_request": req_claims, "config": cfg, "client_shape": shapes[c], "jwt_access_token": jwt,
+                            "client_policy": {k: crec.get(k) for k in ("add_claims", "allowed_scopes", "scopes_to_claims")},
+                            "flows_before": list(hist)}
+                hist.append([" ".join(words), c, u])
+                want = {"authorization_code": "code" in words, "access_token": "token" in words, "id_token": "id_token" in words}
+                for cls_, w in want.items():
+                    if w != (cls_ in slots):
+                        ctx.count("authz-rt:%s:unexpected-%s-%s" % (rt, "missing" if w else "extra", cls_))
+
+                def access_token_views(at, how):
+                    """present one access token at userinfo / introspection, decode it: the usual per-point bound + release_tok"""
+                    tscope = list(rs.tokobj[at].scope)
+                    gs = list(rs.grants[rs.tok_grant[at]][1].scope)
+                    views = {}
+                    try:
+                        r = ui_ep.process_request(ui_ep.parse_request({}, http_info={"headers": {"authorization": "Bearer " + rs.tokens[at]}}))
+                        ra = r.get("response_args", r) if isinstance(r, dict) else r
+                        if "error" not in ra:
+                            views["userinfo"] = dict(ra)
+                    except Exception as e:
+                        ctx.count("authz-rt:userinfo-crash:%s" % type(e).__name__)
+                    try:
+                        ir = dict(ie.process_request(ie.parse_request(rs._token_req(c, {"token": rs.tokens[at]})))["response_args"])
+                        if ir.get("active"):
+                            views["introspection"] = ir
+                    except Exception as e:
+                        ctx.count("authz-rt:introspection-crash:%s" % type(e).__name__)
+                    if jwt:
+                        views["access_token"] = jwt_payload(rs.tokens[at])
+                    rec = dict(base_rec, how=how, token_scope=tscope, grant_scope=gs,
+                               released={k: sorted(x for x in v if x in uvals) for k, v in views.items()})
+                    ctx.case_seen(rec, any(rec["released"].values()))
+                    for point, payload in views.items():
+                        attrs = {k for k in payload if k in uvals}
+                        b = release_bound(rs.server, point, c, tscope, req_claims)
+                        ctx.count("authz-rt-view:%s:%s:%s" % (rt, how, point))
+                        if attrs - b:
+                            ctx.violation("beyond-presented-token-scope", "%s for the access token of a %s flow (%s, scope %r) contains %r beyond the bound %r"
+                                          % (point, rt, how, tscope, sorted(attrs - b), sorted(b)), dict(rec, point=point))
+                        for k in attrs:
+                            if payload[k] != uvals[k]:
+                                ctx.violation("released-not-users-value", "%s released %s=%r, user has %r" % (point, k, payload[k], uvals[k]), dict(rec, point=point))
+                        term = "(%s, %s, %s, (Some %s), %s, %s, %s, %s)" % (
+                            coq_release_config(rs.server, point, c), coq_str(point), coq_str(""),
+                            coq_list([coq_str(x) for x in tscope], "pystr"), coq_list([coq_str(x) for x in gs], "pystr"),
+                            coq_restriction(req_claims.get(point) or {}),
+                            coq_list(["(%s, %s)" % (coq_str(k), coq_pyval(v)) for k, v in uvals.items()], "(pystr * pyval)"),
+                            coq_list(["(%s, %s)" % (coq_str(k), coq_pyval(payload[k])) for k in payload if k in uvals], "(pystr * pyval)"))
+                        tok_cases.append((term, dict(rec, point=point)))
+
+                def id_token_view(idt, how, rt_words):
+                    """decode one ID Token.  rt_words: the response type when the AUTHORIZATION endpoint minted it, None for the token endpoint's"""
+                    payload = jwt_payload(rs.tokens[idt])
+                    tscope = list(rs.tokobj[idt].scope)
+                    gs = list(rs.grants[rs.tok_grant[idt]][1].scope)
+                    attrs = {k for k in payload if k in uvals}
+                    alone = rt_words is not None and set(rt_words) == {"id_token"}
+                    rec = dict(base_rec, how=how, point="id_token", token_scope=tscope, grant_scope=gs, released={"id_token": sorted(attrs)},
+                               id_token_minted_by="authorization endpoint" if rt_words is not None else "token endpoint",
+                               release_point=["id_token", "userinfo"] if alone else ["id_token"])
+                    ctx.case_seen(rec, bool(attrs))
+                    ctx.count("authz-rt-view:%s:%s:id_token" % (rt, how))
+                    b = authz_idt_bound(rs.server, rt_words if rt_words is not None else ["code"], c, tscope, req_claims)
+                    if attrs - b:
+                        if rt_words is None:
+                            ctx.violation("beyond-presented-token-scope", "the token endpoint's ID Token of a %s flow (scope %r) contains %r beyond the id_token bound %r"
+                                          % (rt, tscope, sorted(attrs - b), sorted(b)), rec)
+                        else:
+                            only_ui = (attrs - b) & authz_idt_bound(rs.server, ["id_token"], c, tscope, req_claims)
+                            ctx.violation("authz-id-token-beyond-release-point",
+                                          "the ID Token in the authorization response for response type %r (scope %r) contains %r beyond the bound %r of its release point %s%s"
+                                          % (" ".join(rt_words), tscope, sorted(attrs - b), sorted(b), "id_token + userinfo" if alone else "id_token",
+                                             "; %r are permitted for userinfo only" % sorted(only_ui) if only_ui and not alone else ""), rec)
+                    if attrs:
+                        ctx.count("authz-idt-nonempty:%s" % (rt if rt_words is not None else "token-endpoint"))
+                    if not alone:
+                        # coverage: flows in which the userinfo rules WOULD add something this user has (the ID Token must not show it)
+                        more = {k for k in client_userinfo_entries(rs.server, c, tscope) - b if uvals.get(k) is not None}
+                        ctx.count("authz-idt-userinfo-rules-would-add-%s:%s" % ("something" if more else "nothing", rt if rt_words is not None else "token-endpoint"))
+                    for k in attrs:
+                        if payload[k] != uvals[k]:
+                            ctx.violation("released-not-users-value", "ID Token released %s=%r, user has %r" % (k, payload[k], uvals[k]), rec)
+                    term = "(%s, %s, (Some %s), %s, %s, %s, %s)" % (
+                        coq_release_config(rs.server, "id_token", c),
+                        coq_list([coq_str(x) for x in (rt_words if rt_words is not None else ["code"])], "pystr"),
+                        coq_list([coq_str(x) for x in tscope], "pystr"), coq_list([coq_str(x) for x in gs], "pystr"),
+                        coq_restriction(req_claims.get("id_token") or {}),
+                        coq_list(["(%s, %s)" % (coq_str(k), coq_pyval(v)) for k, v in uvals.items()], "(pystr * pyval)"),
+                        coq_list(["(%s, %s)" % (coq_str(k), coq_pyval(payload[k])) for k in payload if k in uvals], "(pystr * pyval)"))
+                    idt_cases.append((term, rec))
+
+                ctx.count("authz-rt:%s" % rt)
+                if "id_token" in slots:
+                    id_token_view(slots["id_token"], "authorization-response", words)
+                if "access_token" in slots:
+                    access_token_views(slots["access_token"], "authorization-response")
+                if "authorization_code" in slots:
+                    rs.run(("tparse", c, ("tok", slots["authorization_code"]), "same"))
+                    p0 = rs.run(("proc", len(rs.parsed) - 1, None))
+                    if p0[0] != "ok":
+                        ctx.count("authz-rt:%s:code-refused" % rt)
+                        continue
+                    if p0[1].get("id_token") is not None and p0[1]["id_token"] >= 0:
+                        id_token_view(p0[1]["id_token"], "code-redeemed", None)
+                    if "access_token" in p0[1]:
+                        access_token_views(p0[1]["access_token"], "code-redeemed")
+        finally:
+            rs.close()
+    ctx.coq_check_cases(["Lib.Base", "Lib.PyStr", "Model.Claims"], "authz_idt_case", "chk_authz_idt", idt_cases, shard=120, label="authz_idt",
+                        diag="diag_authz_idt")
+    ctx.coq_check_cases(["Lib.Base", "Lib.PyStr", "Model.Claims"], "release_tok_case", "chk_release_tok", tok_cases, shard=120, label="authz_tok",
+                        diag="diag_release_tok")
+
+
 def browser_session_flows(ctx, rng):
     """A later authorization request from the same browser (the provider's session cookie is presented) releases what
     ITS OWN scope and claims parameter authorise - not what an earlier request of that browser session asked for."""
@@ -788,6 +1089,7 @@ def run(ctx):
     browser_session_flows(ctx, ctx.rng)
     unit_cases(ctx, ctx.rng, 240 if ctx.quick else 6000, tok=True)
     downscoped_tokens(ctx, ctx.rng, 6 if ctx.quick else 60)
+    authz_endpoint_id_tokens(ctx, ctx.rng, 8 if ctx.quick else 80)
 
 
 def replay(ctx, rp):
